@@ -1120,6 +1120,16 @@ type When struct {
 	desc       string
 	ref        string
 	extensions []*Extension
+
+	// when of a uses or an augment handed down to the nodes it adds
+	fromAncestor bool
+}
+
+// FromAncestor is true when the statement was written on the uses or the augment that added
+// the node. The context node of the expression is then not the node itself but the data node
+// the uses or augment is in, RFC7950 Sec 7.21.5.
+func (y *When) FromAncestor() bool {
+	return y.fromAncestor
 }
 
 func (y *When) Expression() string {
